@@ -8,7 +8,7 @@ from .props import batteries as B
 def main():
     groups = {"protocol": (B.protocol_battery, B.protocol_judge), "attribution": (B.attribution_battery, B.attribution_judge),
               "fault": (B.fault_battery, B.fault_judge)}
-    for extra in ("reads", "virtual", "binding", "lines", "static", "control", "random"):
+    for extra in ("reads", "virtual", "binding", "lines", "static", "control", "random", "bind", "vars", "malformed", "parse", "dig"):
         if hasattr(B, extra + "_battery"):
             groups[extra] = (getattr(B, extra + "_battery"), getattr(B, extra + "_judge"))
     only = sys.argv[1:] 
